@@ -568,6 +568,9 @@ IDENT_MAX_DELTA = 1
 # invariant under the integer shift between canvas and layer.  Measured on 3 x 1600 identity cases: smooth pixels max delta 0 (98%) or 1,
 # never more; edge pixels max delta 95, at most 24% (8 of 34) of a case's edge pixels differ by more than 1.
 EDGE_MAX_DELTA = 128
+# faint pixels (alpha <= 16 in both renderings, differing by more than 1): sub-pixel slivers sampled at the layer's integer shift only;
+# measured: one such pixel (alpha 7) in one of 4800 thorough identity cases
+FAINT_MAX = 6
 EDGE_MIN_COUNT = 24
 EDGE_MAX_FRACTION = 0.35
 
@@ -611,7 +614,8 @@ def classify_sys(ctx, c, r, stats, with_plain):
         stats['ident_edge_max'] = max(stats.get('ident_edge_max', 0), m['max_edge'])
         if m['nedge']:
             stats['ident_edge_frac_max'] = max(stats.get('ident_edge_frac_max', 0.0), round(m['nedge_diff'] / float(m['nedge']), 3))
-        if m['max'] > IDENT_MAX_DELTA:
+        stats['ident_faint_max'] = max(stats.get('ident_faint_max', 0), m.get('nfaint', 0))
+        if m['max'] > IDENT_MAX_DELTA or m.get('nfaint', 0) > FAINT_MAX:
             bad.append(('identity', "identity chain [%s] changes the image inside the region: %d non-edge pixels differ by more than 1 (max %d), "
                         "first (x,y,delta,filtered,unfiltered)=%s" % ("+".join(c['used']), m['ndiff1'], m['max'], m['at'])))
         elif m['max_edge'] > EDGE_MAX_DELTA or m['nedge_diff'] > max(EDGE_MIN_COUNT, EDGE_MAX_FRACTION * m['nedge']):
@@ -638,6 +642,12 @@ def run(ctx):
     broken = ctx.translate()
     res = ctx.coq_props()
     proof_ok = res['ok'] and not broken
+    if not quick and proof_ok and hasattr(ctx, 'coqchk'):
+        t_chk = time.time()
+        if not ctx.coqchk():
+            proof_ok = False
+            res['audit'].append('coqchk rejected the compiled closure of Props/%s.vo' % ctx.pid)
+        ctx.log("coqchk took %.0fs" % (time.time() - t_chk))
 
     binp, blog = ctx.harness('release')
     if binp is None:
